@@ -1,6 +1,7 @@
 //@include inc/model_base_u128.rs
 //@include inc/price.rs
 //@include inc/perp_tracked.rs
+//@include inc/decrease_position.rs
 // =================================================================================================
 // C07 (decrease half)  Open interest and collateral totals always match the open positions
 //      crates/model/src/position.rs                     :: PositionExt::size_delta_in_tokens
@@ -8,169 +9,15 @@
 //            will_size_remain, is_full_close, is_remaining_size_too_small, check_close, check_partial_close, execute}
 // =================================================================================================
 verus! {
-/// tokens closed by a decrease of `delta` usd: everything on a full close, else proportional, rounded up for longs, down for shorts
-pub open spec fn sdt_spec(is_long: bool, tokens: int, usd: int, delta: int) -> int {
-    if usd == delta { tokens } else if is_long { mul_div_ceil(tokens, delta, usd) } else { mul_div_floor(tokens, delta, usd) }
-}
-/// a decrease of zero usd closes zero tokens (so skipping the open-interest update for a zero usd delta is exact)
-pub proof fn lemma_sdt_zero(l: bool, t: int, u: int) requires u > 0 ensures sdt_spec(l, t, u, 0) == 0 {
-    assert(t * 0 == 0) by(nonlinear_arith);
-    assert((u - 1) / u == 0) by(nonlinear_arith) requires u > 0;
-    assert(0int / u == 0) by(nonlinear_arith) requires u > 0;
-}
-pub open spec fn sdt_of(p: Pos, delta: int) -> int { sdt_spec(p.long, p.size_in_tokens@, p.size_in_usd@, delta) }
-
 impl Pos {
-//@unit C07.PositionExt.size_delta_in_tokens
-//@ file crates/model/src/position.rs
-//@ within pub trait PositionExt<const DECIMALS: u8>: Position<DECIMALS>
-//@ fn size_delta_in_tokens
-//@ sig fn size_delta_in_tokens(&self, size_delta_usd: &Self::Num) -> crate::Result<Self::Num>
-    pub fn size_delta_in_tokens(&self, size_delta_usd: &N) -> (r: Result<N, E>)
-        ensures
-            r.is_ok() ==> r.unwrap()@ == sdt_of(*self, size_delta_usd@),
-//@body
-    pub fn is_empty(&self) -> (r: bool) ensures r == (self.size_in_usd@ == 0 && self.size_in_tokens@ == 0 && self.collateral_amount@ == 0)
-    { self.size_in_usd.is_zero() && self.size_in_tokens.is_zero() && self.collateral_amount.is_zero() }
-}
-impl Prices {
-    #[verifier::external_body] pub fn is_valid(&self) -> (r: bool) { unimplemented!() }
-}
-
-//@struct crates/model/src/action/decrease_position/mod.rs :: pub enum DecreasePositionSwapType ::
-#[derive(Clone, Copy)]
-pub enum DecreasePositionSwapType { NoSwap, PnlTokenToCollateralToken, CollateralToPnlToken }
-//@struct crates/model/src/action/decrease_position/mod.rs :: pub struct DecreasePositionFlags :: is_insolvent_close_allowed, is_liquidation_order, is_cap_size_delta_usd_allowed
-#[derive(Clone, Copy)]
-pub struct DecreasePositionFlags { pub is_insolvent_close_allowed: bool, pub is_liquidation_order: bool, pub is_cap_size_delta_usd_allowed: bool }
-//@struct crates/model/src/action/decrease_position/mod.rs :: pub struct DecreasePositionParams<T> :: prices, initial_size_delta_usd, acceptable_price, initial_collateral_withdrawal_amount, flags, swap
-#[derive(Clone, Copy)]
-pub struct DecreasePositionParams { pub prices: Prices, pub initial_size_delta_usd: N, pub acceptable_price: Option<N>, pub initial_collateral_withdrawal_amount: N, pub flags: DecreasePositionFlags, pub swap: DecreasePositionSwapType }
-impl DecreasePositionParams {
-    pub fn is_liquidation_order(&self) -> (r: bool) ensures r == self.flags.is_liquidation_order { self.flags.is_liquidation_order }
-}
-
-impl DecreasePositionFlags {
-//@unit C07.DecreasePositionFlags.init
-//@ file crates/model/src/action/decrease_position/mod.rs
-//@ within impl DecreasePositionFlags
-//@ fn init
-//@ sig fn init<T>(&mut self, size_in_usd: &T, size_delta_usd: &mut T) -> crate::Result<()>
-    fn init(&mut self, size_in_usd: &N, size_delta_usd: &mut N) -> (r: Result<(), E>)
-        ensures
-            // the requested size is capped by (or rejected against) the position size
-            r.is_ok() ==> final(size_delta_usd)@ <= size_in_usd@ && (old(size_delta_usd)@ <= size_in_usd@ ==> *final(size_delta_usd) == *old(size_delta_usd)),
-//@body
-}
-
-/// the fields of `ProcessResult` / `ProcessCollateralResult` that `execute` reads before the report is built
-pub struct ProcessResult { pub remaining_collateral_amount: N, pub output_amount: N, pub rest: u64 }
-pub struct ProcessCollateralResult { pub size_delta_in_tokens: N, pub collateral: ProcessResult, pub rest: u64 }
-/// carrier for `market().position_params()?`
-pub struct PositionParams { pub min_position_size_usd: N, pub min_collateral_value: N }
-impl PositionParams {
-    pub fn min_position_size_usd(&self) -> (r: &N) ensures *r == self.min_position_size_usd { &self.min_position_size_usd }
-}
-/// what the verified part of `execute` hands to the (unverified) report-building tail
-pub struct DecreaseOutcome { pub should_remove: bool, pub size_delta_usd: N, pub execution: ProcessCollateralResult }
-
-//@struct crates/model/src/action/decrease_position/mod.rs :: pub struct DecreasePosition<P: Position<DECIMALS>, const DECIMALS: u8> :: position, params, withdrawable_collateral_amount, size_delta_usd
-pub struct DecreasePosition { pub position: Pos, pub params: DecreasePositionParams, pub withdrawable_collateral_amount: N, pub size_delta_usd: N }
-
-/// the decrease either closes everything, or leaves a strictly positive number of tokens
-pub open spec fn close_ok(d: DecreasePosition) -> bool {
-    d.size_delta_usd@ == d.position.size_in_usd@ || sdt_of(d.position, d.size_delta_usd@) < d.position.size_in_tokens@
-}
-
-impl DecreasePosition {
-    /// ASSUMED (the collateral-sufficiency estimate in the middle of check_partial_close: pnl estimate, C09 material):
-    /// it reads the position, may zero the withdrawable amount, and may promote the order to a full close - nothing else.
+    /// ASSUMED here (read-only; under contract in C09)
     #[verifier::external_body]
-    fn estimate_remaining_collateral_and_maybe_close_all(&mut self) -> (r: Result<PositionParams, E>)
-        ensures final(self).position == old(self).position, final(self).params == old(self).params,
-            final(self).size_delta_usd == old(self).size_delta_usd || final(self).size_delta_usd == old(self).position.size_in_usd,
-    { unimplemented!() }
+    pub fn validate(&self, prices: &Prices, a: bool, b: bool) -> (r: Result<(), E>) { unimplemented!() }
+}
+impl DecreasePosition {
     /// ASSUMED (liquidation check: C09 material): read-only
     #[verifier::external_body]
     fn check_liquidation(&self) -> (r: Result<(), E>) { unimplemented!() }
-    /// ASSUMED contract of `process_collateral` (collateral processor: C08 material). The text anchors of contracts/C07.py pin
-    /// that neither it nor collateral_processor/ mentions the tracked pools or the position's size fields, and that
-    /// `size_delta_in_tokens` is the third component of `pnl_value(prices, &self.size_delta_usd)` (= sdt_spec, proved in C11).
-    #[verifier::external_body]
-    fn process_collateral(&mut self) -> (r: Result<ProcessCollateralResult, E>)
-        ensures final(self).params == old(self).params, final(self).size_delta_usd == old(self).size_delta_usd,
-            final(self).position.mkt.t == old(self).position.mkt.t,
-            final(self).position == (Pos { mkt: final(self).position.mkt, ..old(self).position }),
-            r.is_ok() ==> r.unwrap().size_delta_in_tokens@ == sdt_of(old(self).position, old(self).size_delta_usd@),
-    { unimplemented!() }
-
-//@unit C07.DecreasePosition.try_new
-//@ file crates/model/src/action/decrease_position/mod.rs
-//@ within impl<const DECIMALS: u8, P: PositionMut<DECIMALS>> DecreasePosition<P, DECIMALS>
-//@ fn try_new
-//@ sig fn try_new( position: P, prices: Prices<P::Num>, mut size_delta_usd: P::Num, acceptable_price: Option<P::Num>, collateral_withdrawal_amount: P::Num, mut flags: DecreasePositionFlags, ) -> crate::Result<Self>
-    pub fn try_new(position: Pos, prices: Prices, mut size_delta_usd: N, acceptable_price: Option<N>, collateral_withdrawal_amount: N, mut flags: DecreasePositionFlags) -> (r: Result<Self, E>)
-        ensures
-            // the action starts with a size that the position can bear, on the very position it was given
-            r.is_ok() ==> r.unwrap().position == position && r.unwrap().size_delta_usd@ <= position.size_in_usd@
-                && r.unwrap().withdrawable_collateral_amount@ <= position.collateral_amount@,
-//@body
-
-//@unit C07.DecreasePosition.will_size_remain
-//@ file crates/model/src/action/decrease_position/mod.rs
-//@ within impl<const DECIMALS: u8, P: PositionMut<DECIMALS>> DecreasePosition<P, DECIMALS>
-//@ fn will_size_remain
-//@ sig fn will_size_remain(&self) -> bool
-    fn will_size_remain(&self) -> (r: bool)
-        ensures r == (self.size_delta_usd@ < self.position.size_in_usd@)
-//@body
-
-//@unit C07.DecreasePosition.is_full_close
-//@ file crates/model/src/action/decrease_position/mod.rs
-//@ within impl<const DECIMALS: u8, P: PositionMut<DECIMALS>> DecreasePosition<P, DECIMALS>
-//@ fn is_full_close
-//@ sig fn is_full_close(&self) -> bool
-    pub fn is_full_close(&self) -> (r: bool)
-        ensures r == (self.size_delta_usd@ == self.position.size_in_usd@)
-//@body
-
-//@unit C07.DecreasePosition.is_remaining_size_too_small
-//@ file crates/model/src/action/decrease_position/mod.rs
-//@ within impl<const DECIMALS: u8, P: PositionMut<DECIMALS>> DecreasePosition<P, DECIMALS>
-//@ fn is_remaining_size_too_small
-//@ sig fn is_remaining_size_too_small(&self, min_position_size_usd: &P::Num) -> crate::Result<bool>
-    fn is_remaining_size_too_small(&self, min_position_size_usd: &N) -> (r: Result<bool, E>)
-        ensures
-            // "not too small" guarantees that the decrease leaves a strictly positive number of tokens
-            r.is_ok() && !r.unwrap() ==> sdt_of(self.position, self.size_delta_usd@) < self.position.size_in_tokens@
-                && self.position.size_in_usd@ - self.size_delta_usd@ >= min_position_size_usd@,
-//@body
-
-//@unit C07.DecreasePosition.check_close
-//@ file crates/model/src/action/decrease_position/mod.rs
-//@ within impl<const DECIMALS: u8, P: PositionMut<DECIMALS>> DecreasePosition<P, DECIMALS>
-//@ fn check_close
-//@ sig fn check_close(&mut self) -> crate::Result<()>
-    fn check_close(&mut self) -> (r: Result<(), E>)
-        ensures final(self).position == old(self).position, final(self).params == old(self).params, final(self).size_delta_usd == old(self).size_delta_usd,
-            final(self).withdrawable_collateral_amount@ <= old(self).withdrawable_collateral_amount@,
-//@body
-
-//@unit C07.DecreasePosition.check_partial_close
-//@ file crates/model/src/action/decrease_position/mod.rs
-//@ within impl<const DECIMALS: u8, P: PositionMut<DECIMALS>> DecreasePosition<P, DECIMALS>
-//@ fn check_partial_close
-//@ sig fn check_partial_close(&mut self) -> crate::Result<()>
-//@ sub use num_traits::CheckedMul; =>
-//@ sub (?s)let \(estimated_pnl, _, _\) = self.*?if remaining_value < params\.min_collateral_value\(\)\.to_signed\(\)\? \{\s*self\.size_delta_usd = self\.position\.size_in_usd\(\)\.clone\(\);\s*\} => let params = self.estimate_remaining_collateral_and_maybe_close_all()?;
-    fn check_partial_close(&mut self) -> (r: Result<(), E>)
-        requires old(self).size_delta_usd@ <= old(self).position.size_in_usd@
-        ensures final(self).position == old(self).position, final(self).params == old(self).params,
-            // the size is only ever promoted to a full close
-            final(self).size_delta_usd == old(self).size_delta_usd || final(self).size_delta_usd == old(self).position.size_in_usd,
-            // a decrease that would round the token size down to zero has been promoted to a full close
-            r.is_ok() ==> close_ok(*final(self)),
-//@body
 
 //@unit C07.DecreasePosition.execute
 //@ file crates/model/src/action/decrease_position/mod.rs
